@@ -437,7 +437,7 @@ func isMinCond(a Atom, n ssa.Value, acc *ssa.Phi) bool {
 // index variable) with 0, or a boolean "first" flag.
 func isFirstElemCond(a Atom) bool {
 	s := AtomString(a)
-	if strings.Contains(s, "rangeindex") && strings.HasSuffix(s, " == 0") {
+	if strings.Contains(s, "rangeindex") && (strings.HasSuffix(s, " == 0") || strings.HasSuffix(s, " <= 0") || strings.HasSuffix(s, " < 1")) {
 		return true
 	}
 	if b, ok := a.Cond.(*ssa.BinOp); ok && b.Op == token.EQL && a.Pol {
